@@ -256,8 +256,8 @@ pub fn ep_rich_sparse(rng: &mut Rng) -> Pos {
     }
 }
 
-/// One-ply predecessors of `s` by a quiet non-pawn move of the side that is NOT to move in `s` (retro-move):
-/// positions P with the other side to move in which a legal quiet move leads exactly to `s`.
+/// One-ply predecessors of `s` by a non-pawn move (quiet, or a capture whose victim is put back) of the side that
+/// is NOT to move in `s` (retro-move): positions P with the other side to move in which a legal move leads exactly to `s`.
 pub fn retro_predecessors(s: &Pos, rng: &mut Rng, max: usize) -> Vec<Pos> {
     let mover = s.turn.opp();
     let mut out = vec![];
@@ -271,10 +271,13 @@ pub fn retro_predecessors(s: &Pos, rng: &mut Rng, max: usize) -> Vec<Pos> {
             let mut p = s.clone();
             p.sq[t as usize] = None; p.sq[f as usize] = Some((mover, pc));
             p.turn = mover; p.ep = None;
-            if pc == Pc::K || pc == Pc::R { /* rights stay as in s: a right cannot reappear, and s has none for moved pieces */ }
+            // half of the retro-moves are un-captures: the piece that was taken reappears on the target square
+            // (the greedy capture that walks into a stalemate or mate is the classic case)
+            let uncapture = rng.chance(0.5);
+            if uncapture { let cp = *rng.pick(&[Pc::P, Pc::N, Pc::B, Pc::R, Pc::Q, Pc::R, Pc::N]); if cp == Pc::P && (t / 8 == 0 || t / 8 == 7) { continue; } p.sq[t as usize] = Some((mover.opp(), cp)); }
             if !p.is_consistent() { continue; }
             let legal = p.legal_moves();
-            if let Some(m) = legal.iter().find(|m| m.from == f && m.to == t && m.kind == Kind::Quiet) {
+            if let Some(m) = legal.iter().find(|m| m.from == f && m.to == t && (m.kind == Kind::Quiet || m.kind == Kind::Capture)) {
                 let n = p.make(m);
                 if n.sq == s.sq && n.rights == s.rights && n.ep == s.ep { out.push(p); if out.len() >= max { return out; } break; }
             }
@@ -284,14 +287,19 @@ pub fn retro_predecessors(s: &Pos, rng: &mut Rng, max: usize) -> Vec<Pos> {
 }
 
 /// Roots two plies before a stalemate (or mate) of a side that still has pieces: the last move is a quiet one.
-pub fn roots_before_terminal(rng: &mut Rng, tries: usize, stalemate: bool, max: usize) -> Vec<Pos> {
-    let mut out = vec![];
+pub fn roots_before_terminal(rng: &mut Rng, tries: usize, stalemate: bool, max: usize) -> Vec<(Pos, u8)> {
+    let mut out: Vec<(Pos, u8)> = vec![];
     for s in terminal_with_pieces(rng, tries, stalemate) {
-        for p1 in retro_predecessors(&s, rng, 2) {
-            out.push(p1.clone());
-            for p2 in retro_predecessors(&p1, rng, 2) { out.push(p2); }
-            if out.len() >= max { return out; }
+        // up to four quiet retro-plies back: the terminal position then lies exactly on the horizon of a search
+        // of that depth, at the end of a line full of narrowed windows
+        let mut frontier = vec![s];
+        for dist in 1..=4u8 {
+            let mut next = vec![];
+            for p in &frontier { for q in retro_predecessors(p, rng, if dist <= 2 { 2 } else { 1 }) { if dist >= 3 || rng.chance(0.15) { out.push((q.clone(), dist)); } next.push(q); } }
+            if next.is_empty() { break; }
+            frontier = next;
         }
+        if out.len() >= max { break; }
     }
     out
 }
